@@ -204,6 +204,20 @@ def _run(case, w):
             if w.t_alive[t] and w.client_on(t, ns) is None:
                 ci = connect(t, ns)
                 read(ci, 'get')
+            elif w.t_alive[t]:
+                # a second CONNECT for a namespace that the transport is
+                # connected to already: refused, and the session of the
+                # client that is connected is what it was
+                cur = w.client_on(t, ns)
+                ci2, pkts = w.connect(t, ns)
+                if ci2 is not None or [p['type'] for p in pkts] != [
+                        wire.CONNECT_ERROR]:
+                    raise Violation('duplicate-connect-not-refused',
+                                    repr(pkts))
+                read(cur, 'get')
+                if model.get(cur):
+                    labels['duplicate_connect_beside_session'] = True
+                    labels['nontrivial'] = True
             continue
         if k == 'refused':
             t = op['t'] % len(w.t)
